@@ -445,3 +445,79 @@ theorem cleared_tensor_holds_no_strong_edge (h : Heap) (u : Nat) (hc : Cleared h
   cases (h.t u).base <;> rfl
 
 end MG.C07
+
+/-! ## a view that is disconnected from its base keeps the gradient it reports -/
+
+namespace MG.C07
+open MG.Eng MG.ND
+
+/-- the fold of `prepInputs` over the operand tensors of a *view* op (`base` is `some _`): it can only drop
+stale `.base` links -/
+theorem prepFold_view_fields (b : Nat) (us : List Nat) (h : Heap) (p : Nat) :
+    let h' := us.foldl (fun h v =>
+      let tv := h.t v
+      let h := if tv.base.isSome ∧ tv.creator.isNone then h.modT v ({ · with base := none }) else h
+      if (some b : Option Nat).isNone then h.modT v ({ · with grad := none, viewGrad := none }) else h) h
+    (h'.t p).grad = (h.t p).grad ∧ (h'.t p).gradObj = (h.t p).gradObj ∧
+    ((h.t p).base = none → (h'.t p).base = none) ∧ h'.next = h.next := by
+  induction us generalizing h with
+  | nil => exact ⟨rfl, rfl, fun hb => hb, rfl⟩
+  | cons v us ih =>
+    simp only [List.foldl_cons, Option.isNone_some, Bool.false_eq_true, if_false]
+    have step : ∀ hh : Heap, let h1 := (if (hh.t v).base.isSome ∧ (hh.t v).creator.isNone then hh.modT v ({ · with base := none }) else hh)
+        (h1.t p).grad = (hh.t p).grad ∧ (h1.t p).gradObj = (hh.t p).gradObj ∧ ((hh.t p).base = none → (h1.t p).base = none) ∧ h1.next = hh.next := by
+      intro hh
+      simp only
+      split
+      · refine ⟨?_, ?_, ?_, rfl⟩
+        · by_cases e : p = v
+          · subst e; simp
+          · rw [t_modT_ne _ _ _ _ e]
+        · by_cases e : p = v
+          · subst e; simp
+          · rw [t_modT_ne _ _ _ _ e]
+        · intro hb
+          by_cases e : p = v
+          · subst e; simp
+          · rw [t_modT_ne _ _ _ _ e]; exact hb
+      · exact ⟨rfl, rfl, fun hb => hb, rfl⟩
+    obtain ⟨s1, s2, s3, s4⟩ := step h
+    have := ih (if (h.t v).base.isSome ∧ (h.t v).creator.isNone then h.modT v ({ · with base := none }) else h)
+    simp only [Option.isNone_some, Bool.false_eq_true, if_false] at this
+    obtain ⟨i1, i2, i3, i4⟩ := this
+    exact ⟨i1.trans s1, i2.trans s2, fun hb => i3 (s3 hb), i4.trans s4⟩
+
+/-- **disconnect_keeps_reported_grad.**  When a view op is applied to a view `p` that was left over from an
+earlier graph epoch (it has a base but no creator), `Tensor._op` disconnects `p` from its base.  What `p.grad`
+reports is the same before and after: the view of its base's gradient that it reported, or `None` once that
+gradient had been discarded — never the contribution that once flowed through `p` itself. -/
+theorem disconnect_keeps_reported_grad (h : Heap) (us : List Nat) (p : Nat)
+    (hb : (h.t p).base.isSome = true) (hc : (h.t p).creator.isNone = true) :
+    let h' := (prepInputs h us (some p)).1
+    (h'.t p).base = none ∧ (gradProp h'.fuel h' p).2 = (gradProp h.fuel h p).2 := by
+  intro h'
+  have hcond : ((h.t p).base.isSome = true ∧ (h.t p).creator.isNone = true) := ⟨hb, hc⟩
+  -- the heap after the disconnect of `p`
+  let g := gradPropObj h.fuel h p
+  let h1 := g.1.modT p fun t => { t with base := none, grad := g.2.map (·.1), gradObj := (g.2.map (·.2)).getD t.gradObj, viewGrad := none }
+  have h1p : (h1.t p).base = none ∧ (h1.t p).grad = g.2.map (·.1) := by simp [h1]
+  have e : h' = (us.foldl (fun h v =>
+      let tv := h.t v
+      let h := if tv.base.isSome ∧ tv.creator.isNone then h.modT v ({ · with base := none }) else h
+      if (some (((h1.t p).base).getD p) : Option Nat).isNone then h.modT v ({ · with grad := none, viewGrad := none }) else h) h1) := by
+    simp only [h', prepInputs, hcond, and_self, if_true]
+    rfl
+  obtain ⟨f1, f2, f3, f4⟩ := prepFold_view_fields (((h1.t p).base).getD p) us h1 p
+  rw [← e] at f1 f2 f3 f4
+  have hbase : (h'.t p).base = none := f3 h1p.1
+  refine ⟨hbase, ?_⟩
+  -- reading `.grad` of a tensor that owns its memory returns its `_grad`
+  have : (gradProp h'.fuel h' p).2 = (h'.t p).grad := by
+    show ((gradPropObj (h'.next + 1 + 1) h' p).2).map (·.1) = _
+    unfold gradPropObj
+    simp only [hbase]
+    cases (h'.t p).grad <;> rfl
+  rw [this, f1, h1p.2]
+  rfl
+
+end MG.C07
